@@ -152,6 +152,14 @@ def _encode_case(job):
             out["problems"].append(f"is_dynamic {ts.is_dynamic()} != reference {sdk_t.is_dynamic()}")
         if not sdk_t.is_dynamic() and ts.byte_length_static() != sdk_t.byte_len():
             out["problems"].append(f"byte_length_static {ts.byte_length_static()} != reference {sdk_t.byte_len()}")
+        # the other ways to obtain an instance of this type (annotation, abi.make, new_instance) denote the same ARC-4 type
+        try:
+            ann = ts.annotation_type()
+            for how, t2 in (("annotation_type()", abi.type_spec_from_annotation(ann)), ("abi.make(annotation_type())", abi.make(ann).type_spec()), ("new_instance()", ts.new_instance().type_spec())):
+                if str(t2) != str(sdk_t) or t2.is_dynamic() != sdk_t.is_dynamic() or (not sdk_t.is_dynamic() and t2.byte_length_static() != sdk_t.byte_len()):
+                    out["problems"].append(f"the type obtained through {how} is {t2} (dynamic={t2.is_dynamic()}), the reference type is {sdk_t}")
+        except (pt.TealInputError, TypeError, NotImplementedError):
+            pass      # some shapes have no annotation form (e.g. tuples of more than 5 members): nothing to compare
         r = random.Random(seed)
         for rep in range(3):
             v = gen_value(sdk_t, r)
